@@ -123,3 +123,14 @@ package tracetransform
 //@   loop#1 invariant len(sl) == $k && cap(sl) == len(links) && $k <= len(links)
 //@   loop#1 invariant forall j in 0 .. len(sl) : sl[j] != nil && ptrid(sl[j]) <= $wm && arrid(sl[j].TraceId) <= $wm && arrid(sl[j].SpanId) <= $wm && arrid(sl[j].TraceId) > 0 && arrid(sl[j].SpanId) > 0
 //@   loop#1 invariant forall j in 0 .. len(sl) : forall l in 0 .. j : arrid(sl[j].TraceId) != arrid(sl[l].TraceId) && arrid(sl[j].SpanId) != arrid(sl[l].SpanId)
+
+// spanEvents: one message per event, in order; name, time (clamped at 0) and dropped count copied; the input is only read
+//@ func spanEvents(es []tracesdk.Event) (events []*tracepb.Span_Event)
+//@   prop C13
+//@   overflow assumed
+//@   unchecked frame fresh protobuf messages are written
+//@   modifies
+//@   ensures len(events) == len(es)
+//@   assert@store elem#* : $val != nil && $val.Name == es[i].Name && $val.TimeUnixNano == max(0, es[i].Time.UnixNano()) && $val.DroppedAttributesCount == clamp32(es[i].DroppedAttributeCount) && 0 <= i && i < len(es)
+//@   assert@call KeyValues#* : $arg0 === es[i].Attributes
+//@   loop#1 invariant 0 <= i && i <= len(es) && len(events) == len(es) && fresh(events)
